@@ -13,7 +13,7 @@
    classes (the self parameter), wrap(cls) on a class hierarchy, functools.wraps metadata. *)
 From Coq Require Import String List Arith Bool PeanoNat ZArith.
 Import ListNotations.
-Require Import TL.Model.Binding.
+Require Import TL.Model.Binding TL.Model.BindingEq.
 
 (* ====================================================================== *)
 (* Part 1: translated tables                                               *)
@@ -597,3 +597,35 @@ Definition meta_case_ok (c : meta_case) : bool :=
 Fixpoint bad_from {A : Type} (ok : A -> bool) (l : list A) (i : nat) : list nat :=
   match l with [] => [] | x :: r => (if ok x then [] else [i]) ++ bad_from ok r (S i) end.
 Definition bad_cases {A : Type} (ok : A -> bool) (l : list A) : list nat := bad_from ok l 0.
+
+(* ====================================================================== *)
+(* Part 4: the _get_binding cache (compat.cache, keyed by the callable)    *)
+(* ====================================================================== *)
+(* bind(obj) / wrap(obj) take the binding of obj from a memo table.  `key_of` is what the table is keyed by
+   (the callable itself, compared with ==), `sig_of` the signature inspection.signature computes for it,
+   `build` what _get_binding computes from a signature. *)
+Section Cache.
+Variables (obj key B : Type) (key_eqb : key -> key -> bool) (key_of : obj -> key) (sig_of : obj -> sig) (build : sig -> B).
+Definition bcache := list (key * B).
+Fixpoint cache_find (k : key) (c : bcache) : option B :=
+  match c with [] => None | (k', b) :: r => if key_eqb k k' then Some b else cache_find k r end.
+Definition get_binding_cached (c : bcache) (o : obj) : B * bcache :=
+  match cache_find (key_of o) c with
+  | Some b => (b, c)
+  | None => let b := build (sig_of o) in (b, (key_of o, b) :: c)
+  end.
+(* a history of bind / wrap calls, no cache clearing in between *)
+Fixpoint run_history (c : bcache) (h : list obj) : bcache :=
+  match h with [] => c | o :: r => run_history (snd (get_binding_cached c o)) r end.
+Definition binding_after (h : list obj) (o : obj) : B := fst (get_binding_cached (run_history [] h) o).
+End Cache.
+
+(* tie: callables = (key class under ==, own signature); the history; the callable asked; the observed table *)
+Definition cache_case := (list (nat * sig) * list nat * nat * bstate)%type.
+Definition cache_case_model (c : cache_case) : bstate :=
+  match c with (objs, h, q, _) =>
+    binding_after nat nat bstate Nat.eqb (fun o => fst (nth o objs (0, []))) (fun o => snd (nth o objs (0, [])))
+                  get_binding h q
+  end.
+Definition cache_case_ok (c : cache_case) : bool :=
+  match c with (_, _, _, obs) => bstate_eqb (cache_case_model c) obs end.
